@@ -105,6 +105,12 @@ def main():
     for rel, src in text.items():
         for m in re.finditer(r"((?:cola/)?[\w/]*?(\w+\.py)):(\d+)(?:-(\d+))?", src):
             line_refs.setdefault(m.group(2), []).append((int(m.group(3)), int(m.group(4) or m.group(3)), rel))
+    file_cites = {}
+    for rel, src in text.items():
+        if not rel.startswith("lean/"):
+            continue
+        for m in set(re.findall(r"\b(\w+\.py)\b", src)):
+            file_cites.setdefault(m, set()).add(rel)
     out = {}
     for name, info in funcs.items():
         f, q = name.split("::")
@@ -140,7 +146,16 @@ def main():
             ps |= {"C04"}
         if any(c.startswith("lean/") for c in cited):
             ties.append("correspondence")
-        out[name] = {"hash": info["hash"], "lineno": info["lineno"], "cited_by": sorted(cited), "props": sorted(ps), "props_closure": sorted(ps_clo | ps), "ties": ties}
+        fc = sorted(file_cites.get(os.path.basename(f), set()))
+        if not any(c.startswith("lean/") for c in cited) and fc and not q.endswith("<module>"):
+            # weaker: some Lean file names the Python FILE (e.g. "after inv.py"): the function may be modelled there without being named
+            for p in props:
+                if set(fc) & owner[p]:
+                    ps.add(p)
+                if set(fc) & (owner[p] | owner_clo[p]):
+                    ps_clo.add(p)
+        out[name] = {"hash": info["hash"], "lineno": info["lineno"], "cited_by": sorted(cited), "file_cited_by": fc[:12],
+                     "props": sorted(ps), "props_closure": sorted(ps_clo | ps), "ties": ties}
         if f in fingerprint.OUT_OF_SCOPE:
             out[name]["out_of_scope"] = fingerprint.OUT_OF_SCOPE[f]
     head = subprocess.run(["git", "-C", "/repo", "rev-parse", "--short", "HEAD"], capture_output=True, text=True).stdout.strip()
@@ -151,7 +166,7 @@ def main():
     byfile = {}
     for name, r in sorted(out.items()):
         byfile.setdefault(name.split("::")[0], []).append((name.split("::")[1], r))
-    n_all = n_cited = n_scope = 0
+    n_all = n_cited = n_scope = n_file = 0
     lines = ["# Model coverage of /repo/cola, function by function (GENERATED by tools/build_model_map.py — do not edit)",
              "",
              f"/repo at {head}.  One row per function / method / class header / module body.  **cited by** = Lean model, lemma, property or",
@@ -180,18 +195,24 @@ def main():
             cb = ", ".join(c.replace("lean/ColaVerif/", "").replace("lean/", "").replace("harness/props/", "props/") for c in r["cited_by"][:6])
             if len(r["cited_by"]) > 6:
                 cb += f", … (+{len(r['cited_by']) - 6})"
+            if not lean_c and r.get("file_cited_by"):
+                n_file += 1
+                cb = (cb + "; " if cb else "") + "file named by: " + ", ".join(c.replace("lean/ColaVerif/", "").replace("lean/", "") for c in r["file_cited_by"][:4])
             lines.append(f"| `{q}` | {' '.join(r['props'])} | {' '.join(r['ties'])} | {cb or '— (not modelled)'} |")
         lines.append("")
-    unm = [n for n, r in sorted(out.items()) if not any(c.startswith("lean/") for c in r["cited_by"]) and n.split("::")[0] not in fingerprint.OUT_OF_SCOPE]
-    lines.insert(12, f"**Totals**: {n_all} in-scope entries, {n_cited} cited by at least one Lean file, {n_all - n_cited} not cited by any Lean file (listed at the end).")
+    unm = [n for n, r in sorted(out.items()) if not any(c.startswith("lean/") for c in r["cited_by"]) and not r.get("file_cited_by")
+           and n.split("::")[0] not in fingerprint.OUT_OF_SCOPE]
+    lines.insert(12, f"**Totals**: {n_all} in-scope entries; {n_cited} named by at least one Lean file; {n_file} more whose Python FILE is named by a Lean "
+                     f"model (weaker: e.g. the plum overloads of `inv.py`, modelled rule by rule in `Model/Inv.lean` without being named one by one); "
+                     f"{n_all - n_cited - n_file} neither (listed at the end: not modelled).")
     lines.insert(13, "")
-    lines.append("## Not cited by any Lean file")
+    lines.append("## Neither named nor in a file named by any Lean file (not modelled)")
     lines.append("")
     for n in unm:
         r = out[n]
         lines.append(f"* `{n}` — props by anchor/harness: {' '.join(r['props']) or 'none'}; ties: {' '.join(r['ties'])}")
     open(os.path.join(ROOT, "docs", "MODEL_COVERAGE.md"), "w").write("\n".join(lines) + "\n")
-    print(f"{len(out)} entries; in scope {n_all}; cited by Lean {n_cited}; not cited {n_all - n_cited}")
+    print(f"{len(out)} entries; in scope {n_all}; named {n_cited}; file-named {n_file}; neither {n_all - n_cited - n_file}")
 
 
 if __name__ == "__main__":
